@@ -139,6 +139,147 @@ fn c03_iter_next_downlink_mc() { tape::init(); let b: [u8; BUF] = tape::arr(); l
 #[kani::unwind(34)]
 fn c03_iter_next_uplink_mc() { tape::init(); let b: [u8; BUF] = tape::arr(); let n = tape::below(BUF + 1); next_contract::<UplinkRemoteSetup<'_>>(&b[..n], spec_up_mc) }
 
+// ================================================================================================ C19 round trips
+// @verif props=C19 obligation=DownlinkMacCommand creators.framing_roundtrip label=proved-complete tier=quick
+#[kani::proof]
+#[kani::unwind(34)]
+fn c19_roundtrip_downlink_mac() { tape::init(); roundtrip_DownlinkMacCommand(); kani::cover!(true, "verif-reached: end"); }
+// @verif props=C19 obligation=UplinkMacCommand creators.framing_roundtrip label=proved-complete tier=quick
+#[kani::proof]
+#[kani::unwind(34)]
+fn c19_roundtrip_uplink_mac() { tape::init(); roundtrip_UplinkMacCommand(); kani::cover!(true, "verif-reached: end"); }
+// @verif props=C19 obligation=DownlinkDUTCommand creators.framing_roundtrip label=proved-complete tier=quick
+#[kani::proof]
+#[kani::unwind(34)]
+fn c19_roundtrip_downlink_dut() { tape::init(); roundtrip_DownlinkDUTCommand(); kani::cover!(true, "verif-reached: end"); }
+// @verif props=C19 obligation=UplinkDUTCommand creators.framing_roundtrip label=proved-complete tier=quick
+#[kani::proof]
+#[kani::unwind(34)]
+fn c19_roundtrip_uplink_dut() { tape::init(); roundtrip_UplinkDUTCommand(); kani::cover!(true, "verif-reached: end"); }
+// @verif props=C19 obligation=DownlinkRemoteSetup creators.framing_roundtrip label=proved-complete tier=quick
+#[kani::proof]
+#[kani::unwind(34)]
+fn c19_roundtrip_downlink_mc() { tape::init(); roundtrip_DownlinkRemoteSetup(); kani::cover!(true, "verif-reached: end"); }
+// @verif props=C19 obligation=UplinkRemoteSetup creators.framing_roundtrip label=proved-complete tier=quick
+#[kani::proof]
+#[kani::unwind(34)]
+fn c19_roundtrip_uplink_mc() { tape::init(); roundtrip_UplinkRemoteSetup(); kani::cover!(true, "verif-reached: end"); }
+
+// ---- setter <-> accessor round trips of the LoRaWAN MAC command set (field semantics, LoRaWAN 1.0.4 ch. 5)
+// @verif props=C19 obligation=LoRaWAN MAC creators.field_roundtrip[requests] label=proved-complete tier=quick
+#[kani::proof]
+#[kani::unwind(34)]
+fn c19_fields_requests() {
+    tape::init();
+    // LinkADRReq: DataRate, TXPower (4 bit each), ChMask (16 bit), Redundancy
+    let (dr, pw, m0, m1, red) = (tape::u8(), tape::u8(), tape::u8(), tape::u8(), tape::u8());
+    let mut c = LinkADRReqCreator::new();
+    let r1 = c.set_data_rate(dr).is_ok();
+    let r2 = c.set_tx_power(pw).is_ok();
+    c.set_channel_mask([m0, m1]).set_redundancy(red);
+    assert!(r1 == (dr <= 15) && r2 == (pw <= 15), "C19 out-of-range DataRate / TXPower are refused");
+    if let Ok((DownlinkMacCommand::LinkADRReq(p), _)) = DownlinkMacCommand::parse_one(c.build()) {
+        assert!(!r1 || p.data_rate() as u8 == dr, "C19 LinkADRReq.DataRate");
+        assert!(!r2 || p.tx_power() as u8 == pw, "C19 LinkADRReq.TXPower");
+        assert!(r1 || p.data_rate() as u8 == 0, "C19 a refused DataRate leaves the field alone");
+        assert!(p.channel_mask().get_index(0) == m0 && p.channel_mask().get_index(1) == m1 && p.redundancy().raw_value() == red, "C19 LinkADRReq.ChMask / Redundancy");
+    } else { assert!(false, "parses"); }
+    // RXParamSetupReq: DLSettings, Frequency (24 bit)
+    let (dl, f) = (tape::u8(), tape::arr::<3>());
+    let mut c = RXParamSetupReqCreator::new();
+    c.set_dl_settings(dl).set_frequency(&f);
+    if let Ok((DownlinkMacCommand::RXParamSetupReq(p), _)) = DownlinkMacCommand::parse_one(c.build()) {
+        assert!(p.dl_settings().raw_value() == dl && p.frequency().value() == (f[0] as u32 | (f[1] as u32) << 8 | (f[2] as u32) << 16) * 100, "C19 RXParamSetupReq fields");
+    } else { assert!(false, "parses"); }
+    // NewChannelReq
+    let (ix, f, rg) = (tape::u8(), tape::arr::<3>(), tape::u8());
+    let mut c = NewChannelReqCreator::new();
+    c.set_channel_index(ix).set_frequency(&f).set_data_rate_range(rg);
+    if let Ok((DownlinkMacCommand::NewChannelReq(p), _)) = DownlinkMacCommand::parse_one(c.build()) {
+        assert!(p.channel_index() == ix && p.frequency().value() == (f[0] as u32 | (f[1] as u32) << 8 | (f[2] as u32) << 16) * 100, "C19 NewChannelReq index / frequency");
+        assert!(p.data_rate_range().is_ok() == ((rg >> 4) >= (rg & 15)) && (p.data_rate_range().is_err() || p.data_rate_range().unwrap().raw_value() == rg), "C19 NewChannelReq DrRange");
+    } else { assert!(false, "parses"); }
+    // DlChannelReq
+    let (ix, f) = (tape::u8(), tape::arr::<3>());
+    let mut c = DlChannelReqCreator::new();
+    c.set_channel_index(ix).set_frequency(&f);
+    if let Ok((DownlinkMacCommand::DlChannelReq(p), _)) = DownlinkMacCommand::parse_one(c.build()) {
+        assert!(p.channel_index() == ix && p.frequency().value() == (f[0] as u32 | (f[1] as u32) << 8 | (f[2] as u32) << 16) * 100, "C19 DlChannelReq fields");
+    } else { assert!(false, "parses"); }
+    // RXTimingSetupReq: Del 0..15
+    let d = tape::u8();
+    let mut c = RXTimingSetupReqCreator::new();
+    let ok = c.set_delay(d).is_ok();
+    assert!(ok == (d <= 15), "C19 RXTimingSetupReq: Del beyond 4 bits refused");
+    if let Ok((DownlinkMacCommand::RXTimingSetupReq(p), _)) = DownlinkMacCommand::parse_one(c.build()) { assert!(p.delay() == (if ok { d } else { 0 }), "C19 RXTimingSetupReq.Del"); } else { assert!(false, "parses"); }
+    // LinkCheckAns
+    let (mg, gw) = (tape::u8(), tape::u8());
+    let mut c = LinkCheckAnsCreator::new();
+    c.set_margin(mg).set_gateway_count(gw);
+    if let Ok((DownlinkMacCommand::LinkCheckAns(p), _)) = DownlinkMacCommand::parse_one(c.build()) { assert!(p.margin() == mg && p.gateway_count() == gw, "C19 LinkCheckAns fields"); } else { assert!(false, "parses"); }
+    kani::cover!(true, "verif-reached: end");
+}
+
+/// KF-C19-1 (open finding): DeviceTimeAns seconds do not survive the builder/parser round trip
+fn device_time_roundtrip(witness: bool) {
+    tape::init();
+    let (sec, ns) = (tape::u32(), tape::u32());
+    // the two byte orders agree only for palindromic values
+    let b = sec.to_le_bytes();
+    kani::assume((b[0] != b[3] || b[1] != b[2]) == witness);
+    let mut c = DeviceTimeAnsCreator::new();
+    c.set_seconds(sec);
+    let _ = c.set_nano_seconds(ns);
+    if let Ok((DownlinkMacCommand::DeviceTimeAns(p), _)) = DownlinkMacCommand::parse_one(c.build()) {
+        assert!(p.seconds() == sec, "C19 DeviceTimeAns.seconds survives the round trip");
+    } else { assert!(false, "parses"); }
+    kani::cover!(true, "verif-reached: end");
+}
+// @verif props=C19 obligation=DeviceTimeAns.field_roundtrip label=proved-complete tier=quick
+#[kani::proof]
+fn c19_fields_device_time() { device_time_roundtrip(false) }
+// witness of KF-C19-1, expected to FAIL while the finding is open
+// @verif props=C19 obligation=DeviceTimeAns.field_roundtrip[KF-C19-1] label=proved-complete tier=quick finding=KF-C19-1
+#[kani::proof]
+fn c19_fields_device_time_kf1_witness() { device_time_roundtrip(true) }
+
+// @verif props=C19 obligation=LoRaWAN MAC creators.field_roundtrip[answers] label=proved-complete tier=quick
+#[kani::proof]
+#[kani::unwind(34)]
+fn c19_fields_answers() {
+    tape::init();
+    let (a, b, c3) = (tape::boolean(), tape::boolean(), tape::boolean());
+    let mut c = LinkADRAnsCreator::new();
+    c.set_channel_mask_ack(a).set_data_rate_ack(b).set_tx_power_ack(c3);
+    if let Ok((UplinkMacCommand::LinkADRAns(p), _)) = UplinkMacCommand::parse_one(c.build()) {
+        assert!(p.channel_mask_ack() == a && p.data_rate_ack() == b && p.powert_ack() == c3 && p.ack() == (a && b && c3), "C19 LinkADRAns status bits");
+    } else { assert!(false, "parses"); }
+    let mut c = RXParamSetupAnsCreator::new();
+    c.set_channel_ack(a).set_rx2_data_rate_ack(b).set_rx1_data_rate_offset_ack(c3);
+    if let Ok((UplinkMacCommand::RXParamSetupAns(p), _)) = UplinkMacCommand::parse_one(c.build()) {
+        assert!(p.channel_ack() == a && p.rx2_data_rate_ack() == b && p.rx1_dr_offset_ack() == c3 && p.ack() == (a && b && c3), "C19 RXParamSetupAns status bits");
+    } else { assert!(false, "parses"); }
+    let mut c = NewChannelAnsCreator::new();
+    c.set_channel_frequency_ack(a).set_data_rate_range_ack(b);
+    if let Ok((UplinkMacCommand::NewChannelAns(p), _)) = UplinkMacCommand::parse_one(c.build()) {
+        assert!(p.channel_freq_ack() == a && p.data_rate_range_ack() == b && p.ack() == (a && b), "C19 NewChannelAns status bits");
+    } else { assert!(false, "parses"); }
+    let mut c = DlChannelAnsCreator::new();
+    c.set_channel_frequency_ack(a).set_uplink_frequency_exists_ack(b);
+    if let Ok((UplinkMacCommand::DlChannelAns(p), _)) = UplinkMacCommand::parse_one(c.build()) {
+        assert!(p.channel_freq_ack() == a && p.uplink_freq_ack() == b && p.ack() == (a && b), "C19 DlChannelAns status bits");
+    } else { assert!(false, "parses"); }
+    let (bat, mg) = (tape::u8(), tape::i8());
+    let mut c = DevStatusAnsCreator::new();
+    c.set_battery(bat);
+    let ok = c.set_margin(mg).is_ok();
+    assert!(ok == (mg >= -32 && mg <= 31), "C19 DevStatusAns margin outside the 6-bit signed range refused");
+    if let Ok((UplinkMacCommand::DevStatusAns(p), _)) = UplinkMacCommand::parse_one(c.build()) {
+        assert!(p.battery() == bat && p.margin() == (if ok { mg } else { 0 }), "C19 DevStatusAns fields (margin sign-extended from 6 bits)");
+    } else { assert!(false, "parses"); }
+    kani::cover!(true, "verif-reached: end");
+}
+
 // GENERATED by tools/gen_enc_harness.py from /repo/lorawan-encoding/src -- do not edit by hand
 /// call every argument-less accessor of the parsed command: none may panic (C03)
 pub(crate) fn touch_DownlinkMacCommand(c: &DownlinkMacCommand<'_>) {
@@ -212,5 +353,423 @@ pub(crate) fn touch_UplinkRemoteSetup(c: &UplinkRemoteSetup<'_>) {
         UplinkRemoteSetup::McGroupDeleteAns(p) => { let _ = p.bytes(); let _ = p.mc_group_id_header(); let _ = p.mc_group_undefined(); }
         UplinkRemoteSetup::McClassCSessionAns(p) => { let _ = p.bytes();  }
         UplinkRemoteSetup::McClassBSessionAns(p) => { let _ = p.bytes();  }
+    }
+}
+/// every fixed-length creator of DownlinkMacCommand: build() parses back to the same command with the same payload bytes
+pub(crate) fn roundtrip_DownlinkMacCommand() {
+    {
+        let mut c = crate::maccommands::LinkCheckAnsCreator::new();
+        let mut i = 1; while i < 3 { c.data[i] = tape::u8(); i += 1; }
+        let b = c.build();
+        assert!(b.len() == 3 && b[0] == 0x02 && c.cid() == 0x02, "C19 LinkCheckAnsCreator: CID and length");
+        match <DownlinkMacCommand<'_> as MacCommandSet<'_>>::parse_one(b) {
+            Ok((crate::maccommands::DownlinkMacCommand::LinkCheckAns(p), n)) => { assert!(n == b.len(), "C19 parse consumes exactly what LinkCheckAnsCreator built"); let pb = p.bytes(); let mut k = 0; while k < 2 { assert!(pb[k] == b[1 + k], "C19 LinkCheckAns payload bytes survive the round trip"); k += 1; } }
+            _ => assert!(false, "C19 LinkCheckAnsCreator output parses back as LinkCheckAns"),
+        }
+    }
+    {
+        let mut c = crate::maccommands::LinkADRReqCreator::new();
+        let mut i = 1; while i < 5 { c.data[i] = tape::u8(); i += 1; }
+        let b = c.build();
+        assert!(b.len() == 5 && b[0] == 0x03 && c.cid() == 0x03, "C19 LinkADRReqCreator: CID and length");
+        match <DownlinkMacCommand<'_> as MacCommandSet<'_>>::parse_one(b) {
+            Ok((crate::maccommands::DownlinkMacCommand::LinkADRReq(p), n)) => { assert!(n == b.len(), "C19 parse consumes exactly what LinkADRReqCreator built"); let pb = p.bytes(); let mut k = 0; while k < 4 { assert!(pb[k] == b[1 + k], "C19 LinkADRReq payload bytes survive the round trip"); k += 1; } }
+            _ => assert!(false, "C19 LinkADRReqCreator output parses back as LinkADRReq"),
+        }
+    }
+    {
+        let mut c = crate::maccommands::DutyCycleReqCreator::new();
+        let mut i = 1; while i < 2 { c.data[i] = tape::u8(); i += 1; }
+        let b = c.build();
+        assert!(b.len() == 2 && b[0] == 0x04 && c.cid() == 0x04, "C19 DutyCycleReqCreator: CID and length");
+        match <DownlinkMacCommand<'_> as MacCommandSet<'_>>::parse_one(b) {
+            Ok((crate::maccommands::DownlinkMacCommand::DutyCycleReq(p), n)) => { assert!(n == b.len(), "C19 parse consumes exactly what DutyCycleReqCreator built"); let pb = p.bytes(); let mut k = 0; while k < 1 { assert!(pb[k] == b[1 + k], "C19 DutyCycleReq payload bytes survive the round trip"); k += 1; } }
+            _ => assert!(false, "C19 DutyCycleReqCreator output parses back as DutyCycleReq"),
+        }
+    }
+    {
+        let mut c = crate::maccommands::RXParamSetupReqCreator::new();
+        let mut i = 1; while i < 5 { c.data[i] = tape::u8(); i += 1; }
+        let b = c.build();
+        assert!(b.len() == 5 && b[0] == 0x05 && c.cid() == 0x05, "C19 RXParamSetupReqCreator: CID and length");
+        match <DownlinkMacCommand<'_> as MacCommandSet<'_>>::parse_one(b) {
+            Ok((crate::maccommands::DownlinkMacCommand::RXParamSetupReq(p), n)) => { assert!(n == b.len(), "C19 parse consumes exactly what RXParamSetupReqCreator built"); let pb = p.bytes(); let mut k = 0; while k < 4 { assert!(pb[k] == b[1 + k], "C19 RXParamSetupReq payload bytes survive the round trip"); k += 1; } }
+            _ => assert!(false, "C19 RXParamSetupReqCreator output parses back as RXParamSetupReq"),
+        }
+    }
+    {
+        let mut c = crate::maccommands::DevStatusReqCreator::new();
+        let mut i = 1; while i < 1 { c.data[i] = tape::u8(); i += 1; }
+        let b = c.build();
+        assert!(b.len() == 1 && b[0] == 0x06 && c.cid() == 0x06, "C19 DevStatusReqCreator: CID and length");
+        match <DownlinkMacCommand<'_> as MacCommandSet<'_>>::parse_one(b) {
+            Ok((crate::maccommands::DownlinkMacCommand::DevStatusReq(p), n)) => { assert!(n == b.len(), "C19 parse consumes exactly what DevStatusReqCreator built"); let pb = p.bytes(); let mut k = 0; while k < 0 { assert!(pb[k] == b[1 + k], "C19 DevStatusReq payload bytes survive the round trip"); k += 1; } }
+            _ => assert!(false, "C19 DevStatusReqCreator output parses back as DevStatusReq"),
+        }
+    }
+    {
+        let mut c = crate::maccommands::NewChannelReqCreator::new();
+        let mut i = 1; while i < 6 { c.data[i] = tape::u8(); i += 1; }
+        let b = c.build();
+        assert!(b.len() == 6 && b[0] == 0x07 && c.cid() == 0x07, "C19 NewChannelReqCreator: CID and length");
+        match <DownlinkMacCommand<'_> as MacCommandSet<'_>>::parse_one(b) {
+            Ok((crate::maccommands::DownlinkMacCommand::NewChannelReq(p), n)) => { assert!(n == b.len(), "C19 parse consumes exactly what NewChannelReqCreator built"); let pb = p.bytes(); let mut k = 0; while k < 5 { assert!(pb[k] == b[1 + k], "C19 NewChannelReq payload bytes survive the round trip"); k += 1; } }
+            _ => assert!(false, "C19 NewChannelReqCreator output parses back as NewChannelReq"),
+        }
+    }
+    {
+        let mut c = crate::maccommands::RXTimingSetupReqCreator::new();
+        let mut i = 1; while i < 2 { c.data[i] = tape::u8(); i += 1; }
+        let b = c.build();
+        assert!(b.len() == 2 && b[0] == 0x08 && c.cid() == 0x08, "C19 RXTimingSetupReqCreator: CID and length");
+        match <DownlinkMacCommand<'_> as MacCommandSet<'_>>::parse_one(b) {
+            Ok((crate::maccommands::DownlinkMacCommand::RXTimingSetupReq(p), n)) => { assert!(n == b.len(), "C19 parse consumes exactly what RXTimingSetupReqCreator built"); let pb = p.bytes(); let mut k = 0; while k < 1 { assert!(pb[k] == b[1 + k], "C19 RXTimingSetupReq payload bytes survive the round trip"); k += 1; } }
+            _ => assert!(false, "C19 RXTimingSetupReqCreator output parses back as RXTimingSetupReq"),
+        }
+    }
+    {
+        let mut c = crate::maccommands::TXParamSetupReqCreator::new();
+        let mut i = 1; while i < 2 { c.data[i] = tape::u8(); i += 1; }
+        let b = c.build();
+        assert!(b.len() == 2 && b[0] == 0x09 && c.cid() == 0x09, "C19 TXParamSetupReqCreator: CID and length");
+        match <DownlinkMacCommand<'_> as MacCommandSet<'_>>::parse_one(b) {
+            Ok((crate::maccommands::DownlinkMacCommand::TXParamSetupReq(p), n)) => { assert!(n == b.len(), "C19 parse consumes exactly what TXParamSetupReqCreator built"); let pb = p.bytes(); let mut k = 0; while k < 1 { assert!(pb[k] == b[1 + k], "C19 TXParamSetupReq payload bytes survive the round trip"); k += 1; } }
+            _ => assert!(false, "C19 TXParamSetupReqCreator output parses back as TXParamSetupReq"),
+        }
+    }
+    {
+        let mut c = crate::maccommands::DlChannelReqCreator::new();
+        let mut i = 1; while i < 5 { c.data[i] = tape::u8(); i += 1; }
+        let b = c.build();
+        assert!(b.len() == 5 && b[0] == 0x0a && c.cid() == 0x0a, "C19 DlChannelReqCreator: CID and length");
+        match <DownlinkMacCommand<'_> as MacCommandSet<'_>>::parse_one(b) {
+            Ok((crate::maccommands::DownlinkMacCommand::DlChannelReq(p), n)) => { assert!(n == b.len(), "C19 parse consumes exactly what DlChannelReqCreator built"); let pb = p.bytes(); let mut k = 0; while k < 4 { assert!(pb[k] == b[1 + k], "C19 DlChannelReq payload bytes survive the round trip"); k += 1; } }
+            _ => assert!(false, "C19 DlChannelReqCreator output parses back as DlChannelReq"),
+        }
+    }
+    {
+        let mut c = crate::maccommands::DeviceTimeAnsCreator::new();
+        let mut i = 1; while i < 6 { c.data[i] = tape::u8(); i += 1; }
+        let b = c.build();
+        assert!(b.len() == 6 && b[0] == 0x0d && c.cid() == 0x0d, "C19 DeviceTimeAnsCreator: CID and length");
+        match <DownlinkMacCommand<'_> as MacCommandSet<'_>>::parse_one(b) {
+            Ok((crate::maccommands::DownlinkMacCommand::DeviceTimeAns(p), n)) => { assert!(n == b.len(), "C19 parse consumes exactly what DeviceTimeAnsCreator built"); let pb = p.bytes(); let mut k = 0; while k < 5 { assert!(pb[k] == b[1 + k], "C19 DeviceTimeAns payload bytes survive the round trip"); k += 1; } }
+            _ => assert!(false, "C19 DeviceTimeAnsCreator output parses back as DeviceTimeAns"),
+        }
+    }
+}
+/// every fixed-length creator of UplinkMacCommand: build() parses back to the same command with the same payload bytes
+pub(crate) fn roundtrip_UplinkMacCommand() {
+    {
+        let mut c = crate::maccommands::LinkCheckReqCreator::new();
+        let mut i = 1; while i < 1 { c.data[i] = tape::u8(); i += 1; }
+        let b = c.build();
+        assert!(b.len() == 1 && b[0] == 0x02 && c.cid() == 0x02, "C19 LinkCheckReqCreator: CID and length");
+        match <UplinkMacCommand<'_> as MacCommandSet<'_>>::parse_one(b) {
+            Ok((crate::maccommands::UplinkMacCommand::LinkCheckReq(p), n)) => { assert!(n == b.len(), "C19 parse consumes exactly what LinkCheckReqCreator built"); let pb = p.bytes(); let mut k = 0; while k < 0 { assert!(pb[k] == b[1 + k], "C19 LinkCheckReq payload bytes survive the round trip"); k += 1; } }
+            _ => assert!(false, "C19 LinkCheckReqCreator output parses back as LinkCheckReq"),
+        }
+    }
+    {
+        let mut c = crate::maccommands::LinkADRAnsCreator::new();
+        let mut i = 1; while i < 2 { c.data[i] = tape::u8(); i += 1; }
+        let b = c.build();
+        assert!(b.len() == 2 && b[0] == 0x03 && c.cid() == 0x03, "C19 LinkADRAnsCreator: CID and length");
+        match <UplinkMacCommand<'_> as MacCommandSet<'_>>::parse_one(b) {
+            Ok((crate::maccommands::UplinkMacCommand::LinkADRAns(p), n)) => { assert!(n == b.len(), "C19 parse consumes exactly what LinkADRAnsCreator built"); let pb = p.bytes(); let mut k = 0; while k < 1 { assert!(pb[k] == b[1 + k], "C19 LinkADRAns payload bytes survive the round trip"); k += 1; } }
+            _ => assert!(false, "C19 LinkADRAnsCreator output parses back as LinkADRAns"),
+        }
+    }
+    {
+        let mut c = crate::maccommands::DutyCycleAnsCreator::new();
+        let mut i = 1; while i < 1 { c.data[i] = tape::u8(); i += 1; }
+        let b = c.build();
+        assert!(b.len() == 1 && b[0] == 0x04 && c.cid() == 0x04, "C19 DutyCycleAnsCreator: CID and length");
+        match <UplinkMacCommand<'_> as MacCommandSet<'_>>::parse_one(b) {
+            Ok((crate::maccommands::UplinkMacCommand::DutyCycleAns(p), n)) => { assert!(n == b.len(), "C19 parse consumes exactly what DutyCycleAnsCreator built"); let pb = p.bytes(); let mut k = 0; while k < 0 { assert!(pb[k] == b[1 + k], "C19 DutyCycleAns payload bytes survive the round trip"); k += 1; } }
+            _ => assert!(false, "C19 DutyCycleAnsCreator output parses back as DutyCycleAns"),
+        }
+    }
+    {
+        let mut c = crate::maccommands::RXParamSetupAnsCreator::new();
+        let mut i = 1; while i < 2 { c.data[i] = tape::u8(); i += 1; }
+        let b = c.build();
+        assert!(b.len() == 2 && b[0] == 0x05 && c.cid() == 0x05, "C19 RXParamSetupAnsCreator: CID and length");
+        match <UplinkMacCommand<'_> as MacCommandSet<'_>>::parse_one(b) {
+            Ok((crate::maccommands::UplinkMacCommand::RXParamSetupAns(p), n)) => { assert!(n == b.len(), "C19 parse consumes exactly what RXParamSetupAnsCreator built"); let pb = p.bytes(); let mut k = 0; while k < 1 { assert!(pb[k] == b[1 + k], "C19 RXParamSetupAns payload bytes survive the round trip"); k += 1; } }
+            _ => assert!(false, "C19 RXParamSetupAnsCreator output parses back as RXParamSetupAns"),
+        }
+    }
+    {
+        let mut c = crate::maccommands::DevStatusAnsCreator::new();
+        let mut i = 1; while i < 3 { c.data[i] = tape::u8(); i += 1; }
+        let b = c.build();
+        assert!(b.len() == 3 && b[0] == 0x06 && c.cid() == 0x06, "C19 DevStatusAnsCreator: CID and length");
+        match <UplinkMacCommand<'_> as MacCommandSet<'_>>::parse_one(b) {
+            Ok((crate::maccommands::UplinkMacCommand::DevStatusAns(p), n)) => { assert!(n == b.len(), "C19 parse consumes exactly what DevStatusAnsCreator built"); let pb = p.bytes(); let mut k = 0; while k < 2 { assert!(pb[k] == b[1 + k], "C19 DevStatusAns payload bytes survive the round trip"); k += 1; } }
+            _ => assert!(false, "C19 DevStatusAnsCreator output parses back as DevStatusAns"),
+        }
+    }
+    {
+        let mut c = crate::maccommands::NewChannelAnsCreator::new();
+        let mut i = 1; while i < 2 { c.data[i] = tape::u8(); i += 1; }
+        let b = c.build();
+        assert!(b.len() == 2 && b[0] == 0x07 && c.cid() == 0x07, "C19 NewChannelAnsCreator: CID and length");
+        match <UplinkMacCommand<'_> as MacCommandSet<'_>>::parse_one(b) {
+            Ok((crate::maccommands::UplinkMacCommand::NewChannelAns(p), n)) => { assert!(n == b.len(), "C19 parse consumes exactly what NewChannelAnsCreator built"); let pb = p.bytes(); let mut k = 0; while k < 1 { assert!(pb[k] == b[1 + k], "C19 NewChannelAns payload bytes survive the round trip"); k += 1; } }
+            _ => assert!(false, "C19 NewChannelAnsCreator output parses back as NewChannelAns"),
+        }
+    }
+    {
+        let mut c = crate::maccommands::RXTimingSetupAnsCreator::new();
+        let mut i = 1; while i < 1 { c.data[i] = tape::u8(); i += 1; }
+        let b = c.build();
+        assert!(b.len() == 1 && b[0] == 0x08 && c.cid() == 0x08, "C19 RXTimingSetupAnsCreator: CID and length");
+        match <UplinkMacCommand<'_> as MacCommandSet<'_>>::parse_one(b) {
+            Ok((crate::maccommands::UplinkMacCommand::RXTimingSetupAns(p), n)) => { assert!(n == b.len(), "C19 parse consumes exactly what RXTimingSetupAnsCreator built"); let pb = p.bytes(); let mut k = 0; while k < 0 { assert!(pb[k] == b[1 + k], "C19 RXTimingSetupAns payload bytes survive the round trip"); k += 1; } }
+            _ => assert!(false, "C19 RXTimingSetupAnsCreator output parses back as RXTimingSetupAns"),
+        }
+    }
+    {
+        let mut c = crate::maccommands::TXParamSetupAnsCreator::new();
+        let mut i = 1; while i < 1 { c.data[i] = tape::u8(); i += 1; }
+        let b = c.build();
+        assert!(b.len() == 1 && b[0] == 0x09 && c.cid() == 0x09, "C19 TXParamSetupAnsCreator: CID and length");
+        match <UplinkMacCommand<'_> as MacCommandSet<'_>>::parse_one(b) {
+            Ok((crate::maccommands::UplinkMacCommand::TXParamSetupAns(p), n)) => { assert!(n == b.len(), "C19 parse consumes exactly what TXParamSetupAnsCreator built"); let pb = p.bytes(); let mut k = 0; while k < 0 { assert!(pb[k] == b[1 + k], "C19 TXParamSetupAns payload bytes survive the round trip"); k += 1; } }
+            _ => assert!(false, "C19 TXParamSetupAnsCreator output parses back as TXParamSetupAns"),
+        }
+    }
+    {
+        let mut c = crate::maccommands::DlChannelAnsCreator::new();
+        let mut i = 1; while i < 2 { c.data[i] = tape::u8(); i += 1; }
+        let b = c.build();
+        assert!(b.len() == 2 && b[0] == 0x0a && c.cid() == 0x0a, "C19 DlChannelAnsCreator: CID and length");
+        match <UplinkMacCommand<'_> as MacCommandSet<'_>>::parse_one(b) {
+            Ok((crate::maccommands::UplinkMacCommand::DlChannelAns(p), n)) => { assert!(n == b.len(), "C19 parse consumes exactly what DlChannelAnsCreator built"); let pb = p.bytes(); let mut k = 0; while k < 1 { assert!(pb[k] == b[1 + k], "C19 DlChannelAns payload bytes survive the round trip"); k += 1; } }
+            _ => assert!(false, "C19 DlChannelAnsCreator output parses back as DlChannelAns"),
+        }
+    }
+    {
+        let mut c = crate::maccommands::DeviceTimeReqCreator::new();
+        let mut i = 1; while i < 1 { c.data[i] = tape::u8(); i += 1; }
+        let b = c.build();
+        assert!(b.len() == 1 && b[0] == 0x0d && c.cid() == 0x0d, "C19 DeviceTimeReqCreator: CID and length");
+        match <UplinkMacCommand<'_> as MacCommandSet<'_>>::parse_one(b) {
+            Ok((crate::maccommands::UplinkMacCommand::DeviceTimeReq(p), n)) => { assert!(n == b.len(), "C19 parse consumes exactly what DeviceTimeReqCreator built"); let pb = p.bytes(); let mut k = 0; while k < 0 { assert!(pb[k] == b[1 + k], "C19 DeviceTimeReq payload bytes survive the round trip"); k += 1; } }
+            _ => assert!(false, "C19 DeviceTimeReqCreator output parses back as DeviceTimeReq"),
+        }
+    }
+}
+/// every fixed-length creator of DownlinkDUTCommand: build() parses back to the same command with the same payload bytes
+pub(crate) fn roundtrip_DownlinkDUTCommand() {
+    {
+        let mut c = crate::certification::DutResetReqCreator::new();
+        let mut i = 1; while i < 1 { c.data[i] = tape::u8(); i += 1; }
+        let b = c.build();
+        assert!(b.len() == 1 && b[0] == 0x01 && c.cid() == 0x01, "C19 DutResetReqCreator: CID and length");
+        match <DownlinkDUTCommand<'_> as MacCommandSet<'_>>::parse_one(b) {
+            Ok((crate::certification::DownlinkDUTCommand::DutResetReq(p), n)) => { assert!(n == b.len(), "C19 parse consumes exactly what DutResetReqCreator built"); let pb = p.bytes(); let mut k = 0; while k < 0 { assert!(pb[k] == b[1 + k], "C19 DutResetReq payload bytes survive the round trip"); k += 1; } }
+            _ => assert!(false, "C19 DutResetReqCreator output parses back as DutResetReq"),
+        }
+    }
+    {
+        let mut c = crate::certification::DutJoinReqCreator::new();
+        let mut i = 1; while i < 1 { c.data[i] = tape::u8(); i += 1; }
+        let b = c.build();
+        assert!(b.len() == 1 && b[0] == 0x02 && c.cid() == 0x02, "C19 DutJoinReqCreator: CID and length");
+        match <DownlinkDUTCommand<'_> as MacCommandSet<'_>>::parse_one(b) {
+            Ok((crate::certification::DownlinkDUTCommand::DutJoinReq(p), n)) => { assert!(n == b.len(), "C19 parse consumes exactly what DutJoinReqCreator built"); let pb = p.bytes(); let mut k = 0; while k < 0 { assert!(pb[k] == b[1 + k], "C19 DutJoinReq payload bytes survive the round trip"); k += 1; } }
+            _ => assert!(false, "C19 DutJoinReqCreator output parses back as DutJoinReq"),
+        }
+    }
+    {
+        let mut c = crate::certification::AdrBitChangeReqCreator::new();
+        let mut i = 1; while i < 2 { c.data[i] = tape::u8(); i += 1; }
+        let b = c.build();
+        assert!(b.len() == 2 && b[0] == 0x04 && c.cid() == 0x04, "C19 AdrBitChangeReqCreator: CID and length");
+        match <DownlinkDUTCommand<'_> as MacCommandSet<'_>>::parse_one(b) {
+            Ok((crate::certification::DownlinkDUTCommand::AdrBitChangeReq(p), n)) => { assert!(n == b.len(), "C19 parse consumes exactly what AdrBitChangeReqCreator built"); let pb = p.bytes(); let mut k = 0; while k < 1 { assert!(pb[k] == b[1 + k], "C19 AdrBitChangeReq payload bytes survive the round trip"); k += 1; } }
+            _ => assert!(false, "C19 AdrBitChangeReqCreator output parses back as AdrBitChangeReq"),
+        }
+    }
+    {
+        let mut c = crate::certification::TxPeriodicityChangeReqCreator::new();
+        let mut i = 1; while i < 2 { c.data[i] = tape::u8(); i += 1; }
+        let b = c.build();
+        assert!(b.len() == 2 && b[0] == 0x06 && c.cid() == 0x06, "C19 TxPeriodicityChangeReqCreator: CID and length");
+        match <DownlinkDUTCommand<'_> as MacCommandSet<'_>>::parse_one(b) {
+            Ok((crate::certification::DownlinkDUTCommand::TxPeriodicityChangeReq(p), n)) => { assert!(n == b.len(), "C19 parse consumes exactly what TxPeriodicityChangeReqCreator built"); let pb = p.bytes(); let mut k = 0; while k < 1 { assert!(pb[k] == b[1 + k], "C19 TxPeriodicityChangeReq payload bytes survive the round trip"); k += 1; } }
+            _ => assert!(false, "C19 TxPeriodicityChangeReqCreator output parses back as TxPeriodicityChangeReq"),
+        }
+    }
+    {
+        let mut c = crate::certification::RxAppCntReqCreator::new();
+        let mut i = 1; while i < 1 { c.data[i] = tape::u8(); i += 1; }
+        let b = c.build();
+        assert!(b.len() == 1 && b[0] == 0x09 && c.cid() == 0x09, "C19 RxAppCntReqCreator: CID and length");
+        match <DownlinkDUTCommand<'_> as MacCommandSet<'_>>::parse_one(b) {
+            Ok((crate::certification::DownlinkDUTCommand::RxAppCntReq(p), n)) => { assert!(n == b.len(), "C19 parse consumes exactly what RxAppCntReqCreator built"); let pb = p.bytes(); let mut k = 0; while k < 0 { assert!(pb[k] == b[1 + k], "C19 RxAppCntReq payload bytes survive the round trip"); k += 1; } }
+            _ => assert!(false, "C19 RxAppCntReqCreator output parses back as RxAppCntReq"),
+        }
+    }
+    {
+        let mut c = crate::certification::LinkCheckReqCreator::new();
+        let mut i = 1; while i < 1 { c.data[i] = tape::u8(); i += 1; }
+        let b = c.build();
+        assert!(b.len() == 1 && b[0] == 0x20 && c.cid() == 0x20, "C19 LinkCheckReqCreator: CID and length");
+        match <DownlinkDUTCommand<'_> as MacCommandSet<'_>>::parse_one(b) {
+            Ok((crate::certification::DownlinkDUTCommand::LinkCheckReq(p), n)) => { assert!(n == b.len(), "C19 parse consumes exactly what LinkCheckReqCreator built"); let pb = p.bytes(); let mut k = 0; while k < 0 { assert!(pb[k] == b[1 + k], "C19 LinkCheckReq payload bytes survive the round trip"); k += 1; } }
+            _ => assert!(false, "C19 LinkCheckReqCreator output parses back as LinkCheckReq"),
+        }
+    }
+    {
+        let mut c = crate::certification::DutVersionsReqCreator::new();
+        let mut i = 1; while i < 1 { c.data[i] = tape::u8(); i += 1; }
+        let b = c.build();
+        assert!(b.len() == 1 && b[0] == 0x7f && c.cid() == 0x7f, "C19 DutVersionsReqCreator: CID and length");
+        match <DownlinkDUTCommand<'_> as MacCommandSet<'_>>::parse_one(b) {
+            Ok((crate::certification::DownlinkDUTCommand::DutVersionsReq(p), n)) => { assert!(n == b.len(), "C19 parse consumes exactly what DutVersionsReqCreator built"); let pb = p.bytes(); let mut k = 0; while k < 0 { assert!(pb[k] == b[1 + k], "C19 DutVersionsReq payload bytes survive the round trip"); k += 1; } }
+            _ => assert!(false, "C19 DutVersionsReqCreator output parses back as DutVersionsReq"),
+        }
+    }
+}
+/// every fixed-length creator of UplinkDUTCommand: build() parses back to the same command with the same payload bytes
+pub(crate) fn roundtrip_UplinkDUTCommand() {
+    {
+        let mut c = crate::certification::RxAppCntAnsCreator::new();
+        let mut i = 1; while i < 3 { c.data[i] = tape::u8(); i += 1; }
+        let b = c.build();
+        assert!(b.len() == 3 && b[0] == 0x09 && c.cid() == 0x09, "C19 RxAppCntAnsCreator: CID and length");
+        match <UplinkDUTCommand<'_> as MacCommandSet<'_>>::parse_one(b) {
+            Ok((crate::certification::UplinkDUTCommand::RxAppCntAns(p), n)) => { assert!(n == b.len(), "C19 parse consumes exactly what RxAppCntAnsCreator built"); let pb = p.bytes(); let mut k = 0; while k < 2 { assert!(pb[k] == b[1 + k], "C19 RxAppCntAns payload bytes survive the round trip"); k += 1; } }
+            _ => assert!(false, "C19 RxAppCntAnsCreator output parses back as RxAppCntAns"),
+        }
+    }
+    {
+        let mut c = crate::certification::DutVersionsAnsCreator::new();
+        let mut i = 1; while i < 13 { c.data[i] = tape::u8(); i += 1; }
+        let b = c.build();
+        assert!(b.len() == 13 && b[0] == 0x7f && c.cid() == 0x7f, "C19 DutVersionsAnsCreator: CID and length");
+        match <UplinkDUTCommand<'_> as MacCommandSet<'_>>::parse_one(b) {
+            Ok((crate::certification::UplinkDUTCommand::DutVersionsAns(p), n)) => { assert!(n == b.len(), "C19 parse consumes exactly what DutVersionsAnsCreator built"); let pb = p.bytes(); let mut k = 0; while k < 12 { assert!(pb[k] == b[1 + k], "C19 DutVersionsAns payload bytes survive the round trip"); k += 1; } }
+            _ => assert!(false, "C19 DutVersionsAnsCreator output parses back as DutVersionsAns"),
+        }
+    }
+}
+/// every fixed-length creator of DownlinkRemoteSetup: build() parses back to the same command with the same payload bytes
+pub(crate) fn roundtrip_DownlinkRemoteSetup() {
+    {
+        let mut c = crate::multicast::PackageVersionReqCreator::new();
+        let mut i = 1; while i < 1 { c.data[i] = tape::u8(); i += 1; }
+        let b = c.build();
+        assert!(b.len() == 1 && b[0] == 0x00 && c.cid() == 0x00, "C19 PackageVersionReqCreator: CID and length");
+        match <DownlinkRemoteSetup<'_> as MacCommandSet<'_>>::parse_one(b) {
+            Ok((crate::multicast::DownlinkRemoteSetup::PackageVersionReq(p), n)) => { assert!(n == b.len(), "C19 parse consumes exactly what PackageVersionReqCreator built"); let pb = p.bytes(); let mut k = 0; while k < 0 { assert!(pb[k] == b[1 + k], "C19 PackageVersionReq payload bytes survive the round trip"); k += 1; } }
+            _ => assert!(false, "C19 PackageVersionReqCreator output parses back as PackageVersionReq"),
+        }
+    }
+    {
+        let mut c = crate::multicast::McGroupStatusReqCreator::new();
+        let mut i = 1; while i < 2 { c.data[i] = tape::u8(); i += 1; }
+        let b = c.build();
+        assert!(b.len() == 2 && b[0] == 0x01 && c.cid() == 0x01, "C19 McGroupStatusReqCreator: CID and length");
+        match <DownlinkRemoteSetup<'_> as MacCommandSet<'_>>::parse_one(b) {
+            Ok((crate::multicast::DownlinkRemoteSetup::McGroupStatusReq(p), n)) => { assert!(n == b.len(), "C19 parse consumes exactly what McGroupStatusReqCreator built"); let pb = p.bytes(); let mut k = 0; while k < 1 { assert!(pb[k] == b[1 + k], "C19 McGroupStatusReq payload bytes survive the round trip"); k += 1; } }
+            _ => assert!(false, "C19 McGroupStatusReqCreator output parses back as McGroupStatusReq"),
+        }
+    }
+    {
+        let mut c = crate::multicast::McGroupSetupReqCreator::new();
+        let mut i = 1; while i < 30 { c.data[i] = tape::u8(); i += 1; }
+        let b = c.build();
+        assert!(b.len() == 30 && b[0] == 0x02 && c.cid() == 0x02, "C19 McGroupSetupReqCreator: CID and length");
+        match <DownlinkRemoteSetup<'_> as MacCommandSet<'_>>::parse_one(b) {
+            Ok((crate::multicast::DownlinkRemoteSetup::McGroupSetupReq(p), n)) => { assert!(n == b.len(), "C19 parse consumes exactly what McGroupSetupReqCreator built"); let pb = p.bytes(); let mut k = 0; while k < 29 { assert!(pb[k] == b[1 + k], "C19 McGroupSetupReq payload bytes survive the round trip"); k += 1; } }
+            _ => assert!(false, "C19 McGroupSetupReqCreator output parses back as McGroupSetupReq"),
+        }
+    }
+    {
+        let mut c = crate::multicast::McGroupDeleteReqCreator::new();
+        let mut i = 1; while i < 2 { c.data[i] = tape::u8(); i += 1; }
+        let b = c.build();
+        assert!(b.len() == 2 && b[0] == 0x03 && c.cid() == 0x03, "C19 McGroupDeleteReqCreator: CID and length");
+        match <DownlinkRemoteSetup<'_> as MacCommandSet<'_>>::parse_one(b) {
+            Ok((crate::multicast::DownlinkRemoteSetup::McGroupDeleteReq(p), n)) => { assert!(n == b.len(), "C19 parse consumes exactly what McGroupDeleteReqCreator built"); let pb = p.bytes(); let mut k = 0; while k < 1 { assert!(pb[k] == b[1 + k], "C19 McGroupDeleteReq payload bytes survive the round trip"); k += 1; } }
+            _ => assert!(false, "C19 McGroupDeleteReqCreator output parses back as McGroupDeleteReq"),
+        }
+    }
+    {
+        let mut c = crate::multicast::McClassCSessionReqCreator::new();
+        let mut i = 1; while i < 11 { c.data[i] = tape::u8(); i += 1; }
+        let b = c.build();
+        assert!(b.len() == 11 && b[0] == 0x04 && c.cid() == 0x04, "C19 McClassCSessionReqCreator: CID and length");
+        match <DownlinkRemoteSetup<'_> as MacCommandSet<'_>>::parse_one(b) {
+            Ok((crate::multicast::DownlinkRemoteSetup::McClassCSessionReq(p), n)) => { assert!(n == b.len(), "C19 parse consumes exactly what McClassCSessionReqCreator built"); let pb = p.bytes(); let mut k = 0; while k < 10 { assert!(pb[k] == b[1 + k], "C19 McClassCSessionReq payload bytes survive the round trip"); k += 1; } }
+            _ => assert!(false, "C19 McClassCSessionReqCreator output parses back as McClassCSessionReq"),
+        }
+    }
+    {
+        let mut c = crate::multicast::McClassBSessionReqCreator::new();
+        let mut i = 1; while i < 11 { c.data[i] = tape::u8(); i += 1; }
+        let b = c.build();
+        assert!(b.len() == 11 && b[0] == 0x05 && c.cid() == 0x05, "C19 McClassBSessionReqCreator: CID and length");
+        match <DownlinkRemoteSetup<'_> as MacCommandSet<'_>>::parse_one(b) {
+            Ok((crate::multicast::DownlinkRemoteSetup::McClassBSessionReq(p), n)) => { assert!(n == b.len(), "C19 parse consumes exactly what McClassBSessionReqCreator built"); let pb = p.bytes(); let mut k = 0; while k < 10 { assert!(pb[k] == b[1 + k], "C19 McClassBSessionReq payload bytes survive the round trip"); k += 1; } }
+            _ => assert!(false, "C19 McClassBSessionReqCreator output parses back as McClassBSessionReq"),
+        }
+    }
+}
+/// every fixed-length creator of UplinkRemoteSetup: build() parses back to the same command with the same payload bytes
+pub(crate) fn roundtrip_UplinkRemoteSetup() {
+    {
+        let mut c = crate::multicast::PackageVersionAnsCreator::new();
+        let mut i = 1; while i < 3 { c.data[i] = tape::u8(); i += 1; }
+        let b = c.build();
+        assert!(b.len() == 3 && b[0] == 0x00 && c.cid() == 0x00, "C19 PackageVersionAnsCreator: CID and length");
+        match <UplinkRemoteSetup<'_> as MacCommandSet<'_>>::parse_one(b) {
+            Ok((crate::multicast::UplinkRemoteSetup::PackageVersionAns(p), n)) => { assert!(n == b.len(), "C19 parse consumes exactly what PackageVersionAnsCreator built"); let pb = p.bytes(); let mut k = 0; while k < 2 { assert!(pb[k] == b[1 + k], "C19 PackageVersionAns payload bytes survive the round trip"); k += 1; } }
+            _ => assert!(false, "C19 PackageVersionAnsCreator output parses back as PackageVersionAns"),
+        }
+    }
+    {
+        let mut c = crate::multicast::McGroupSetupAnsCreator::new();
+        let mut i = 1; while i < 2 { c.data[i] = tape::u8(); i += 1; }
+        let b = c.build();
+        assert!(b.len() == 2 && b[0] == 0x02 && c.cid() == 0x02, "C19 McGroupSetupAnsCreator: CID and length");
+        match <UplinkRemoteSetup<'_> as MacCommandSet<'_>>::parse_one(b) {
+            Ok((crate::multicast::UplinkRemoteSetup::McGroupSetupAns(p), n)) => { assert!(n == b.len(), "C19 parse consumes exactly what McGroupSetupAnsCreator built"); let pb = p.bytes(); let mut k = 0; while k < 1 { assert!(pb[k] == b[1 + k], "C19 McGroupSetupAns payload bytes survive the round trip"); k += 1; } }
+            _ => assert!(false, "C19 McGroupSetupAnsCreator output parses back as McGroupSetupAns"),
+        }
+    }
+    {
+        let mut c = crate::multicast::McGroupDeleteAnsCreator::new();
+        let mut i = 1; while i < 2 { c.data[i] = tape::u8(); i += 1; }
+        let b = c.build();
+        assert!(b.len() == 2 && b[0] == 0x03 && c.cid() == 0x03, "C19 McGroupDeleteAnsCreator: CID and length");
+        match <UplinkRemoteSetup<'_> as MacCommandSet<'_>>::parse_one(b) {
+            Ok((crate::multicast::UplinkRemoteSetup::McGroupDeleteAns(p), n)) => { assert!(n == b.len(), "C19 parse consumes exactly what McGroupDeleteAnsCreator built"); let pb = p.bytes(); let mut k = 0; while k < 1 { assert!(pb[k] == b[1 + k], "C19 McGroupDeleteAns payload bytes survive the round trip"); k += 1; } }
+            _ => assert!(false, "C19 McGroupDeleteAnsCreator output parses back as McGroupDeleteAns"),
+        }
+    }
+    {
+        let mut c = crate::multicast::McClassCSessionAnsCreator::new();
+        let mut i = 1; while i < 5 { c.data[i] = tape::u8(); i += 1; }
+        let b = c.build();
+        assert!(b.len() == 5 && b[0] == 0x04 && c.cid() == 0x04, "C19 McClassCSessionAnsCreator: CID and length");
+        match <UplinkRemoteSetup<'_> as MacCommandSet<'_>>::parse_one(b) {
+            Ok((crate::multicast::UplinkRemoteSetup::McClassCSessionAns(p), n)) => { assert!(n == b.len(), "C19 parse consumes exactly what McClassCSessionAnsCreator built"); let pb = p.bytes(); let mut k = 0; while k < 4 { assert!(pb[k] == b[1 + k], "C19 McClassCSessionAns payload bytes survive the round trip"); k += 1; } }
+            _ => assert!(false, "C19 McClassCSessionAnsCreator output parses back as McClassCSessionAns"),
+        }
+    }
+    {
+        let mut c = crate::multicast::McClassBSessionAnsCreator::new();
+        let mut i = 1; while i < 5 { c.data[i] = tape::u8(); i += 1; }
+        let b = c.build();
+        assert!(b.len() == 5 && b[0] == 0x05 && c.cid() == 0x05, "C19 McClassBSessionAnsCreator: CID and length");
+        match <UplinkRemoteSetup<'_> as MacCommandSet<'_>>::parse_one(b) {
+            Ok((crate::multicast::UplinkRemoteSetup::McClassBSessionAns(p), n)) => { assert!(n == b.len(), "C19 parse consumes exactly what McClassBSessionAnsCreator built"); let pb = p.bytes(); let mut k = 0; while k < 4 { assert!(pb[k] == b[1 + k], "C19 McClassBSessionAns payload bytes survive the round trip"); k += 1; } }
+            _ => assert!(false, "C19 McClassBSessionAnsCreator output parses back as McClassBSessionAns"),
+        }
     }
 }
